@@ -31,7 +31,7 @@ type victim struct {
 }
 
 var victims = []victim{
-	{Kind: "add", Inits: []string{"empty", "one", "three"}, NoAuto: true},
+	{Kind: "add", Inits: []string{"empty", "one", "three", "orphan-empty"}, NoAuto: true},
 	{Kind: "addauto", Inits: []string{"one", "two", "four", "cancel", "high2"}},
 	{Kind: "addition2", Inits: []string{"empty", "two"}, NoAuto: true},
 	{Kind: "addition3", Inits: []string{"one", "cancel"}, NoAuto: true},
@@ -40,8 +40,8 @@ var victims = []victim{
 	{Kind: "expiry", Inits: []string{"two", "four"}, NoAuto: true},
 	{Kind: "range", Inits: []string{"three", "four"}, NoAuto: true},
 	{Kind: "range01", Inits: []string{"cancel"}, NoAuto: true},
-	{Kind: "clean", Inits: []string{"empty", "two", "orphans"}, NoAuto: true},
-	{Kind: "close", Inits: []string{"two", "orphans"}, NoAuto: true},
+	{Kind: "clean", Inits: []string{"empty", "two", "orphans", "orphan-empty"}, NoAuto: true},
+	{Kind: "close", Inits: []string{"two", "orphans", "orphan-empty"}, NoAuto: true},
 }
 
 type caseResult struct {
@@ -204,7 +204,7 @@ func runKind(v victim, init string, cfg reftable.Config, quick bool) (*caseResul
 		defer func() { rt.E = nil }()
 		w.KeepTrace = true
 		li := &monitor.ListIntegrity{Prop: "C06", HashID: stk.HashName(cfg), Cfg: cfg, CheckOpen: true}
-		if init == "empty" {
+		if init == "empty" || init == "orphan-empty" {
 			li.HashID = ""
 		}
 		w.Monitors = append(w.Monitors, li)
